@@ -78,7 +78,10 @@ func (t *Queue[T]) Add(value T, scheduledTime time.Time) (addedElement *QueueEle
 	if t.maxSize > 0 {
 		// heap is bigger than maxSize now; remove the last element (furthest in the future).
 		if size := t.heap.Len(); size > t.maxSize {
-			heap.Remove(&t.heap, size-1)
+			//nolint:forcetypeassert // false positive, we know that the element is of type *QueueElement[T]
+			droppedElement := heap.Remove(&t.heap, size-1).(*generalheap.HeapElement[HeapKey, *QueueElement[T]])
+			// nobody will ever poll the dropped element: mark it as canceled, so that its owner can tell
+			droppedElement.Value.closeCancel()
 		}
 	}
 
@@ -279,6 +282,12 @@ func (timedQueueElement *QueueElement[T]) isCanceled() bool {
 
 // Cancel removed the given element from the queue and cancels its execution.
 func (timedQueueElement *QueueElement[T]) Cancel() {
+	timedQueueElement.cancelPending()
+}
+
+// cancelPending removes the given element from the queue and cancels its execution. It returns false if the element
+// was canceled already, or dropped by the queue (size bound, shutdown with CancelPendingElements).
+func (timedQueueElement *QueueElement[T]) cancelPending() (wasPending bool) {
 	// acquire locks
 	timedQueueElement.timedQueue.heapMutex.Lock()
 	defer timedQueueElement.timedQueue.heapMutex.Unlock()
@@ -286,12 +295,20 @@ func (timedQueueElement *QueueElement[T]) Cancel() {
 	// remove element from queue
 	timedQueueElement.timedQueue.removeElement(timedQueueElement)
 
+	return timedQueueElement.closeCancel()
+}
+
+// closeCancel closes the cancel channel unless it is closed already (the heap lock has to be held).
+func (timedQueueElement *QueueElement[T]) closeCancel() (closed bool) {
 	select {
 	case <-timedQueueElement.cancel:
 		// channel is already closed
+		return false
 	default:
 		// close the cancel channel to notify subscribers
 		close(timedQueueElement.cancel)
+
+		return true
 	}
 }
 
